@@ -150,7 +150,7 @@ def compile_pipeline(cid, P, cnames):
 
     rec = {"cid": cid, "comp": "+".join(cnames), "P": P, "Q": None, "pkeys": upj.keys_of(P), "qkeys": [], "back": [],
            "skip": "", "raised": "none", "site": "", "detail": "", "declared": [], "qkind": [], "pkind": [],
-           "has_back_conversion": False, "pipeline": True, "declared_exc": "none",
+           "has_back_conversion": False, "pipeline": True, "declared_exc": "none", "stage_rejected": False,
            "qnames": {"actions": [], "fluents": [], "objects": [], "types": []}}
     try:
         with time_limit(20):
@@ -183,6 +183,7 @@ def compile_pipeline(cid, P, cnames):
         rec["raised"] = type(ex).__name__
         rec["site"] = _site(ex)
         rec["detail"] = str(ex)[:300]
+        rec["stage_rejected"] = "cannot handle this kind of problem" in str(ex)
     return rec
 
 
@@ -193,6 +194,7 @@ def worker(job):
             return compile_pipeline(cid, P, list(cname))
         r = compile_one(cid, P, cname, fresh)
         r.setdefault("pipeline", False)
+        r.setdefault("stage_rejected", False)
         r.setdefault("declared_exc", "none")
         r.setdefault("qnames", {"actions": [], "fluents": [], "objects": [], "types": []})
         return r
